@@ -51,7 +51,7 @@ var glueOps = []string{"&", "|", "+", "-", "/", "*", "%", "=", "<", ">", "(", ")
 var keywords = []string{"SELECT", "FROM", "WHERE", "AND", "OR", "IN", "AS", "as", "aS", "VALUES", "values", "INSERT INTO t", "UPDATE t SET", "DELETE FROM", "LIMIT", "GROUP BY", "ORDER BY", "JOIN", "ON", "NOT", "NULL", "LIKE", "RETURNING", "asx", "VALUESx", "xAS"}
 var plainIdents = []string{"a", "b", "c", "col1", "name", "id", "t", "p", "x_1", "_y", "foo", "count", "max"}
 var oddIdents = []string{"\"quoted col\"", "'single'", "\"a\"\"b\"", "名前", "éa", "9", "123", "1a", "a1", "\"\"", "'it''s'", "\"&T.x\"", "'$M.k'", "\"--\"", "'/*'"}
-var nonASCII = []string{"é", "名", "ß", "ſ", "K", "٣", "²", "€", " ", " ", "😀", "�"}
+var nonASCII = []string{"\u0080", "\u007f", "\u0081", "\u00ff", "\u0100", "\u07ff", "\u0800", "\uffff", "\U00010000", "\U0010ffff", "\x00", "é", "名", "ß", "ſ", "K", "٣", "²", "€", " ", " ", "😀", "�"}
 var literals = []string{"'x'", "''", "'it''s'", "\"d\"", "'a,b'", "'(' ", "')'", "'$T.a'", "'&T.*'", "'--'", "'/* */'", "\"'\"", "'\"'", "'\n'", "''''", "'(*) VALUES ($T.*)'"}
 var comments = []string{"-- c\n", "--\n", "-- $T.a\n", "-- 'q\n", "/* c */", "/**/", "/* $T.a */", "/* ' */", "/* -- */", "-- /* \n", "/* \n */", "--x", "/* unterminated", "-- &T.* AS\n", "/*/", "/* * / */"}
 var numbers = []string{"1", "42", "3.14", "-1", "0x1F", "1e5", "NULL", "TRUE"}
@@ -380,7 +380,7 @@ func (g *G) expr() string {
 	}
 }
 
-var bodyAlphabet = []string{"*", "*", "/", "-", "%d", "%", "'", "\"", " ", "x", "\n", "$T.a", "&T.*", "(", ")", ",", "**", "*/x", "--"}
+var bodyAlphabet = []string{"*", "*", "/", "-", "%d", "%", "\x00", "\x00 AND a = $T.a", "\u0080", "'", "\"", " ", "x", "\n", "$T.a", "&T.*", "(", ")", ",", "**", "*/x", "--"}
 
 func (g *G) body(n int, forbid string) string {
 	var sb strings.Builder
@@ -476,6 +476,17 @@ func (g *G) Skeleton() string {
 		var outs []string
 		for i := 0; i < n; i++ {
 			outs = append(outs, g.outputExpr())
+		}
+		if g.R.Chance(1, 3) {
+			// a plain column computed from an input, under a plain alias (no output expression)
+			g.count("skel:input-in-call-as-alias")
+			call := g.R.Pick([]string{"coalesce(a, %s)", "CAST(%s AS INT)", "f(%s)", "EXISTS(SELECT 1 FROM t WHERE a = %s)", "max(b, %s)"})
+			col := strings.Replace(call, "%s", g.memberInput(), 1) + g.R.Pick([]string{" AS ", " as ", "\nAS\t", " AS\n"}) + g.R.Pick(plainIdents)
+			if g.R.Chance(1, 2) {
+				outs = append(outs, col)
+			} else {
+				outs = append([]string{col}, outs...)
+			}
 		}
 		q := "SELECT " + strings.Join(outs, g.sep()) + " FROM " + g.R.Pick(plainIdents)
 		if g.R.Chance(2, 3) {
